@@ -25,7 +25,7 @@ from pyvc.pool import collect, run_jobs
 from pyvc.report import VENV_PY
 from pyvc.values import Obj, Opaque, SBool, SOpt, SU, SymExc, U
 
-LEVEL = "proof"
+LEVEL = "other"
 API = "iodata.api"
 INNER = f"{API}._reissue_warnings.<locals>.inner"
 
